@@ -63,6 +63,45 @@ def pure_helpers(fi) -> Dict[str, Tuple[ast.FunctionDef, ast.AST]]:
         if not (free & encl_locals) and s_.name not in free and s_.name not in encl_locals \
                 and not any(isinstance(x, (ast.Yield, ast.Await, ast.NamedExpr)) for x in ast.walk(rv)):
             ph[s_.name] = (s_, rv)
+    # helpers imported by name from a sibling module (`from .containers import _helper`): read there, as long as what
+    # the summary mentions beyond its parameters is bound to the same module objects here (`np`, `copy`)
+    def _mod_imports(tree) -> Dict[str, str]:
+        out = {}
+        for st in tree.body:
+            if isinstance(st, ast.Import):
+                for a in st.names:
+                    out[(a.asname or a.name).split('.')[0]] = a.name if a.asname else a.name.split('.')[0]
+        return out
+    here = _mod_imports(fi.module.tree)
+    for st in fi.module.tree.body:
+        if isinstance(st, ast.ImportFrom) and st.level >= 1 and st.module:
+            base = fi.module.path.parent
+            for _ in range(st.level - 1):
+                base = base.parent
+            cand = base.joinpath(*st.module.split('.')).with_suffix('.py')
+            if not cand.exists():
+                continue
+            try:
+                other = ast.parse(cand.read_text())
+            except SyntaxError:
+                continue
+            there = _mod_imports(other)
+            for a in st.names:
+                nm = a.asname or a.name
+                if nm in ph or nm in encl_locals:
+                    continue
+                for s_ in other.body:
+                    if isinstance(s_, ast.FunctionDef) and s_.name == a.name:
+                        rv = summarise_return(s_)
+                        if rv is None:
+                            continue
+                        params = {x.arg for x in s_.args.args + s_.args.kwonlyargs + s_.args.posonlyargs}
+                        bound_inside = {x.id for x in ast.walk(rv) if isinstance(x, ast.Name) and isinstance(x.ctx, ast.Store)}
+                        free = {x.id for x in ast.walk(rv) if isinstance(x, ast.Name) and isinstance(x.ctx, ast.Load)} - params - bound_inside
+                        import builtins as _b
+                        if all((n_ in there and here.get(n_) == there[n_]) or hasattr(_b, n_) for n_ in free) \
+                                and not any(isinstance(x, (ast.Yield, ast.Await, ast.NamedExpr)) for x in ast.walk(rv)):
+                            ph[nm] = (s_, rv)
     if fi.cls is not None:
         for s_ in fi.cls.node.body:
             if isinstance(s_, ast.FunctionDef) and s_ is not fi.node and s_.args.args and not any(
@@ -194,7 +233,7 @@ class Fn:
                                 dflt[a.arg] = d
                         for p_ in names + [a.arg for a in h.args.kwonlyargs]:
                             if p_ not in bound:
-                                if p_ in dflt and isinstance(dflt[p_], ast.Constant):
+                                if p_ in dflt and (isinstance(dflt[p_], ast.Constant) or (isinstance(dflt[p_], ast.Tuple) and all(isinstance(e_, ast.Constant) for e_ in dflt[p_].elts))):
                                     bound[p_] = dflt[p_]
                                 else:
                                     okb = False
@@ -431,6 +470,9 @@ class Fn:
         from fsa.effects import MUTATORS
         if isinstance(e, ast.DictComp):
             return e
+        if isinstance(e, ast.Call):
+            e2 = self._inline_pure_calls(e)
+            return e2 if isinstance(e2, ast.DictComp) else None
         if not isinstance(e, ast.Name):
             return None
         vals = self.lf.values_reaching(nid, e.id)
